@@ -121,22 +121,25 @@ void ThreadPool :: UnregisterClient(IThreadPoolClient * client)
 {
    WaitCondition waitCondition;
 
-   bool doWait = false;
+   while(true)
    {
-      // If this client has any Messages pending, we need to block until they are gone
-      DECLARE_MUTEXGUARD(_poolLock);
+      {
+         // If this client has any Messages pending, we need to block until they are gone
+         DECLARE_MUTEXGUARD(_poolLock);
 
-      // The Put() call should never fail in practice because we called _waitingForCompletion.EnsureSize() earlier in RegisterClient()
-      if ((DoesClientHaveMessagesOutstandingUnsafe(client))&&(_waitingForCompletion.Put(client, &waitCondition).IsOK())) doWait = true;
+         // The Put() call should never fail in practice because we called _waitingForCompletion.EnsureSize() earlier in RegisterClient()
+         if ((DoesClientHaveMessagesOutstandingUnsafe(client) == false)||(_waitingForCompletion.Put(client, &waitCondition).IsError()))
+         {
+            // final cleanup -- done without releasing _poolLock after the test above, so that no more Messages can be accepted for (client) in between
+            (void) _registeredClients.Remove(client);
+            (void) _pendingMessages.Remove(client);
+            (void) _deferredMessages.Remove(client);
+            (void) _waitingForCompletion.Remove(client);  // shouldn't be necessary but just in case
+            return;
+         }
+      }
+      MLOG_ON_ERROR("ThreadPool::Wait()", waitCondition.Wait()); // block here (outside of the _poolLock) until we are notified, and then check again
    }
-   if (doWait) MLOG_ON_ERROR("ThreadPool::Wait()", waitCondition.Wait()); // block here (outside of the _poolLock) until we are notified, indicating that we can continue
-
-   // final cleanup
-   DECLARE_MUTEXGUARD(_poolLock);
-   (void) _registeredClients.Remove(client);
-   (void) _pendingMessages.Remove(client);
-   (void) _deferredMessages.Remove(client);
-   (void) _waitingForCompletion.Remove(client);  // shouldn't be necessary but just in case
 }
 
 status_t ThreadPool :: ThreadPoolThread :: SendMessagesToInternalThread(IThreadPoolClient * client, Queue<MessageRef> & mq)
